@@ -236,13 +236,17 @@ def vocabulary(chk, repo, g):
     chk.ob('R08.2', not none_returns, MQR, rd['ReadAtomPrefix'],
            key='prefix-total', what='ReadAtomPrefix returns a constraint '
                                     'for every literal')
+    ops_table(chk, repo, g)
+
+
+def ops_table(chk, repo, g, R2='R08.2', R3='R08.3'):
     # comparison operators: ConstraintNumber literals = keys of ops
     cn = set(x for l in g.literal_sets('ConstraintNumber') for x in l)
     ops_node = repo.module_assign(MQ, 'ops')
     if not isinstance(ops_node, ast.Dict):
         raise AnalysisError('ops is not a dict literal')
     keys = [literal(k) for k in ops_node.keys]
-    chk.ob('R08.2', cn == set(keys) and len(keys) == len(set(keys)), MQ,
+    chk.ob(R2, cn == set(keys) and len(keys) == len(set(keys)), MQ,
            ops_node, key='vocab:ConstraintNumber:ops', qualname='<module>',
            what='the comparison operators of the grammar are the keys of '
                 'the ops table', found='grammar %s, ops %s' % (sorted(cn),
@@ -260,11 +264,11 @@ def vocabulary(chk, repo, g):
         d = dotted(v) or ''
         got[literal(k)] = d.split('.', 1)[1] if alias and d.startswith(
             alias + '.') else d
-    chk.ob('R08.3', got == want, MQ, ops_node, key='ops-meaning',
+    chk.ob(R3, got == want, MQ, ops_node, key='ops-meaning',
            qualname='<module>',
            what='ops maps each symbol to the operator function of that '
                 'comparison', found=str(got))
-    refcmp.check(chk, 'R08.3', MQ,
+    refcmp.check(chk, R3, MQ,
                  repo.func(MQ, 'ConstraintNumber.__call__'),
                  "def f(self, inp):\n    return ops[self.operator](inp, "
                  "self.n)\n", key='ConstraintNumber.__call__',
